@@ -60,6 +60,10 @@ CLAIMED = {
             "round trips on a colour lattice, hue in [0,360) for every finite double"),
     "C32": ("E1+E2", "Kani/CBMC on invert / rotate_hue / set_alpha; MIR symbolic execution of the lighten/darken/fade closures",
             "bounded model checking (kernel scope): involution and cancellation laws for all in-range doubles"),
+    "C18": ("E2", "symbolic execution of FormalArgs::eval (MIR) with forking stubs for the argument containers and the scope; obligations decided by z3 and cvc5",
+            "bounded model checking (binding scope): parameters are bound in order to the positional value, else the named value, else the default evaluated in the "
+            "callee's argument scope after the parameters to its left; missing, too many and left-over named arguments are errors; the rest parameter takes what is left; "
+            "splats, definition-site scoping, @return and @content are outside"),
     "C21": ("E2", "symbolic execution of handle_item's @error arm and of the destination Drop impls (MIR)",
             "bounded model checking (dispatch scope): @error always fails the compilation; the Drop impls always commit their content; "
             "one recorded finding (a commit error inside Drop is only printed, so content can be dropped silently)"),
@@ -75,7 +79,6 @@ NOT_APPLICABLE = {
     "C09": "round trip through the plain-CSS parser: nom parser is out of reach",
     "C10": "the kernel is a Display impl interleaving digit extraction with write! into a String and f64: Display (concrete 1.5: no verdict in 200 s); 'printed decimal = correctly rounded binary' needs FP<->Real reasoning no solver here finishes",
     "C15": "precedence and associativity are decided by the nom parser layering",
-    "C18": "FormalArgs::eval / CallArgs over Scope and css::Value: same obstacle as C16",
     "C19": "recursive selector trees of Strings: any harness with one combinator level gave no verdict in 420 s; `&` resolution re-enters the parser",
     "C20": "tree transformation over css::Item/Rule with Drop-time commits; heap-rich, css::Value inside",
     "C22": "selector trees (see C19)",
